@@ -397,6 +397,10 @@ long long c_accumulate(long long nrows, long long ncols,
     if(max_accumulated_cells < 1)
             return GRID_ERROR + __LINE__;
 
+    /* nprint is used as a divisor */
+    if(nprint < 1)
+            return GRID_ERROR + __LINE__;
+
     if(nrows < 1 || nrows < 1)
             return GRID_ERROR + __LINE__;
 
@@ -577,6 +581,10 @@ long long c_slope(long long nrows,
     /* Check inputs */
     //if(cellsize <= 1e-10)
     //        return GRID_ERROR + __LINE__;
+
+    /* nprint is used as a divisor */
+    if(nprint < 1)
+            return GRID_ERROR + __LINE__;
 
     if(nrows < 1 || nrows < 1)
             return GRID_ERROR + __LINE__;
